@@ -23,7 +23,8 @@ SeqOf(x) == "Seq" \o x
 (* packaging sorts: Pair = (Int, Int); Rec = {k1: Int, k2: Int}; Nest = (Pair, Int);  *)
 (* RecP = {k1: Pair, k2: Int}; PS = (SeqJet, Int)                                     *)
 PackSorts == {"Pair", "Rec", "Nest", "RecP", "PS", "PSP"}      \* PSP = (SeqPair, Int)
-ElemSorts == IF Fam = "chainp" THEN {"Evt", "Jet", "Int", "Pair", "PSP"}      \* nested packaging, few sorts, deep
+ElemSorts == IF Fam = "chainp" THEN {"Evt", "Jet", "Int", "Pair", "PSP", "SeqInt"}   \* nested packaging and
+                                                        \* nested result sequences, few sorts, deep
              ELSE ObjSorts \cup {"Int"} \cup (IF Fam \in {"chain", "chain1", "chainx"} THEN PackSorts ELSE {})
 SeqSorts == {SeqOf(x) : x \in ElemSorts}
 Elem(sq) == CHOOSE x \in ElemSorts : SeqOf(x) = sq
@@ -362,7 +363,8 @@ Fill(t) ==
     ELSE LET i == CHOOSE j \in 1..Len(t.a) : HasHole(t.a[j]) /\ \A m \in 1..(j - 1) : ~HasHole(t.a[m])
          IN {[t EXCEPT !.a[i] = c] : c \in Fill(t.a[i])}
 
-RootSorts == CASE Fam \in {"idx", "chain", "chain1", "chainx", "chainp"} -> {"SeqInt"}
+RootSorts == CASE Fam = "chainp" -> {"SeqInt", "SeqSeqInt"}
+               [] Fam \in {"idx", "chain", "chain1", "chainx"} -> {"SeqInt"}
                [] Fam \in {"agg"} -> {"SeqInt", "Int"}
                [] Fam = "helper" -> {"SeqInt", "SeqJet"}
                [] Fam = "e2e" -> {"SeqInt", "SeqJet", "SeqEvt"}
